@@ -723,8 +723,12 @@ func (r *Round) getState() Phase {
 }
 
 func (r *Round) setPhase(state Phase) {
-	if state > r.getState() {
-		atomic.StoreInt32((*int32)(&r.phase), int32(state))
+	for {
+		cur := atomic.LoadInt32((*int32)(&r.phase))
+		if int32(state) <= cur ||
+			atomic.CompareAndSwapInt32((*int32)(&r.phase), cur, int32(state)) {
+			return
+		}
 	}
 }
 
